@@ -172,10 +172,13 @@ def check(run, M, tier):
                             cmpn = r_
                         elif isinstance(r_, ast.Name) and r_.id == mname:
                             cmpn = l_
-                    if isinstance(cmpn, ast.Compare) and len(cmpn.ops) == 1 and isinstance(cmpn.ops[0], ast.Lt) and isinstance(cmpn.comparators[0], ast.Constant) \
-                            and cmpn.comparators[0].value == 1 and len(cg) == 1:
-                        crop_term = vg.ev(cmpn.left, State(cg[0].env))
-                        crop_ok = True
+                    if isinstance(cmpn, ast.Compare) and len(cmpn.ops) == 1 and len(cg) == 1:
+                        # `R < 1` in any spelling (`1 > R`): the comparison normal form is pos(1 - R)
+                        ct = vg._as_term(vg.ev(cmpn, State(cg[0].env)))
+                        ca = ct.single_atom() if isinstance(ct, T.Poly) else None
+                        if ca is not None and ca[0] == "app" and ca[1] == "pos":
+                            crop_term = T.sub(T.const(1), T.dec(ca[2][0]))
+                            crop_ok = True
             elif mname is not None and idx_meas is None and any(isinstance(c, ast.Call) and (getattr(c.func, "attr", None) == "sum" or getattr(c.func, "id", None) == "sum")
                                                                 and any(isinstance(x, ast.Name) and x.id == mname for a_ in c.args for x in ast.walk(a_))
                                                                 for c in ast.walk(st_)):
